@@ -312,7 +312,9 @@ def compare(base: dict, alt: dict, desc, viol: list, cnt: dict, exact_obs: bool 
                     reordered_update = True
                     continue
                 tol_x = 1e-9 * np.maximum(np.abs(bx), 1.0) + amp * np.maximum(bu["dx"], au["dx"])
-                tol_p = 1e-9 * float(np.max(np.abs(bp))) + amp * max(bu["dp"], au["dp"]) + 100 * 2.3e-16 * (float(np.max(np.abs(bp))) + max(bu["dp"], au["dp"]))   # P - K S K' keeps eps * |prior|
+                cc = max(bu["cond"], au["cond"])
+                tol_p = (1e-9 * float(np.max(np.abs(bp))) + max(amp, 10 * 2.3e-16 * cc * cc) * max(bu["dp"], au["dp"])          # K = C inv(S), then K S K': eps * cond(S)^2
+                         + 100 * 2.3e-16 * (float(np.max(np.abs(bp))) + max(bu["dp"], au["dp"])))                                  # P - K S K' keeps eps * |prior|
                 if bool(np.any(~(np.abs(bx - ax) <= tol_x))) or not float(np.max(np.abs(bp - ap))) <= tol_p:
                     return v("estimate-order-dependent", f"step {k} estimate {tid}: same {len(bu['order'])} observations stacked in another order: state differs by {float(np.max(np.abs(bx - ax))):.3e}, "
                                                          f"covariance by {float(np.max(np.abs(bp - ap))):.3e} (allowance {float(np.max(tol_x)):.1e} / {tol_p:.1e}, cond(S) {max(bu['cond'], au['cond']):.1e})", key="beyond-rounding")
